@@ -2,8 +2,6 @@ package pktb
 
 import (
 	"encoding/binary"
-	"fmt"
-	"os"
 	"testing"
 	"time"
 
@@ -190,12 +188,9 @@ func runC04(outer *testing.T) func(t rapid.TB, c toCase, rec *vx.Case) {
 				}
 			}
 			logStart := len(w.Log)
-			tres := w.Deliver(sc, op.Sig, msg)
+			w.Deliver(sc, op.Sig, msg)
 			if !committedCallback(w, logStart, "timeout", pktsim.SrcKey(w, p)) {
 				rec.Add("timeouts_rejected_or_noop", 1)
-				if os.Getenv("PKTB_DEBUG") != "" {
-					fmt.Fprintf(os.Stderr, "TOREJ e=%v %s h=%d err=%.240v\n", e, p, h, tres.Err)
-				}
 				if eKnown && e && w.HasCommitment(p) && len(pktsim.CommittedSteps(w, "recv")[pktsim.DstKey(w, p)]) == 0 {
 					rec.Add("timeouts_rejected_though_elapsed_and_unreceived", 1) // converse: health only
 				}
@@ -301,9 +296,6 @@ func runC04(outer *testing.T) func(t rapid.TB, c toCase, rec *vx.Case) {
 				res := w.Deliver(dc, op.Sig, msg)
 				if !committedCallback(w, logStart, "recv", pktsim.DstKey(w, p)) {
 					rec.Add("recvs_rejected_or_noop", 1)
-					if os.Getenv("PKTB_DEBUG") != "" {
-						fmt.Fprintf(os.Stderr, "RECVREJ %s h=%d err=%.200v\n", p, h, res.Err)
-					}
 					break
 				}
 				rec.Add("recvs_accepted", 1)
